@@ -28,15 +28,20 @@ func runWipe(env *execenv.Env) error {
 	}
 
 	env.Out.Println("cleaning git config ...")
-	err = env.Backend.ClearUserIdentity()
-	if err != nil {
-		_ = env.Backend.Close()
-		return err
+	// removing a config key that does not exist is an error: only remove what is there
+	if isSet, _ := env.Backend.IsUserIdentitySet(); isSet {
+		err = env.Backend.ClearUserIdentity()
+		if err != nil {
+			_ = env.Backend.Close()
+			return err
+		}
 	}
-	err = env.Backend.LocalConfig().RemoveAll("git-bug")
-	if err != nil {
-		_ = env.Backend.Close()
-		return err
+	if keys, _ := env.Backend.LocalConfig().ReadAll("git-bug"); len(keys) > 0 {
+		err = env.Backend.LocalConfig().RemoveAll("git-bug")
+		if err != nil {
+			_ = env.Backend.Close()
+			return err
+		}
 	}
 
 	storage := env.Backend.LocalStorage()
